@@ -1,7 +1,7 @@
 (* C10 — `update` rewrites only failing expectations and is idempotent. *)
 From Coq Require Import List NArith Bool.
 Import ListNotations.
-From SV Require Import Template Escape LineParser Markdown MarkdownProofs Update UpdateProofs.
+From SV Require Import Template Escape LineParser CramSpec Markdown MdSpec MarkdownProofs Update UpdateProofs UpdateAstProofs.
 Local Open Scope N_scope.
 
 (* The update generator works on the token stream of C06, which accounts for every line of every document
@@ -25,6 +25,34 @@ Theorem C10_fence_safe : forall body,
   (3 <= S (max_bt 2 body))%nat /\ forall l, In l body -> closes (S (max_bt 2 body)) l = false.
 Proof. intros body. split; [apply fence_at_least_three|apply fence_not_closed_by_body]. Qed.
 
+(* Over the document grammar of C06: updating the rendering of a well-formed document d with new bodies for its tests
+   is the rendering of [subst d bs] -- the same elements in the same order, prose / headings / front-matter / other
+   code blocks untouched, every scrut block with its comments and its (re-rendered) inline configuration, a new fence,
+   and for the blocks with a command the same command and continuations followed by the new body ... *)
+Theorem C10_update_is_substitution : forall d idx bs, length bs = commands d ->
+  update_toks (tokens_from idx d) (bodies_for d bs) = render_md (subst d bs).
+Proof. exact update_render. Qed.
+
+(* ... hence, by the round trip of C06, the updated document parses to tests with the SAME titles and commands as the
+   original, whenever the substituted document is well formed (its new fence is never closed by a body line:
+   C10_fence_safe; what remains are the conditions on the new expectation lines -- parse as expectations, not an exit
+   code, the first one not starting with `> `: the listed known finding) *)
+Theorem C10_same_commands : forall pe_ok front_ok cfg_ok d bs,
+  wf_md pe_ok front_ok cfg_ok d = true -> length bs = commands d -> wf_md pe_ok front_ok cfg_ok (subst d bs) = true ->
+  exists ts, parse_md pe_ok front_ok cfg_ok (update_md (render_md d) (bodies_for d bs)) = LOk ts
+             /\ map (fun t => (pt_title (mt_test t), pt_cmd (mt_test t))) ts
+                = map (fun t => (pt_title (mt_test t), pt_cmd (mt_test t))) (md_tests_of d).
+Proof. exact update_same_commands. Qed.
+
+Example C10_same_commands_instance :   (* heading, a test with a continuation whose new body holds a fence line, trailing prose *)
+  let d := [EHeading 1 [84]; EBlank; EScrut 3 (Some [32; 97]) [[35]] (Some ([99], [[100]], [BExp [111]])) []; EProse [80]] in
+  let bs := [[BExp [96; 96; 96]; BCode [51]]] in
+  wf_md (fun _ => true) (fun _ => true) (fun _ => true) d = true /\ length bs = commands d
+  /\ wf_md (fun _ => true) (fun _ => true) (fun _ => true) (subst d bs) = true
+  /\ render_md (subst d bs) = [[35; 32; 84]; []; [96; 96; 96; 96; 115; 99; 114; 117; 116; 32; 123; 97; 125]; [35]; [36; 32; 99]; [62; 32; 100];
+                               [96; 96; 96]; [91; 51; 93]; [96; 96; 96; 96]; [80]].
+Proof. cbv zeta. repeat split; vm_compute; reflexivity. Qed.
+
 Check C10_outside_preserved : forall t bodies, is_test t = false -> front_shape t ->
   let out := fst (update_tok t bodies) in
   (out = tok_raw t \/ out = tok_raw t ++ [DASHES]) /\ snd (update_tok t bodies) = bodies.
@@ -42,3 +70,5 @@ Print Assumptions C10_outside_preserved.
 Print Assumptions C10_tokens_well_shaped.
 Print Assumptions C10_nothing_truncated.
 Print Assumptions C10_fence_safe.
+Print Assumptions C10_update_is_substitution.
+Print Assumptions C10_same_commands.
